@@ -43,6 +43,12 @@ def templates():
               "    return inner(2)\n\n")
     T["subroutine-with-lookup-calls-its-own-closure"] = main("    r = subclo(n)\n    return r\n", subclo)
     T["subroutine-with-lookup-calls-its-own-closure-in-loop"] = main("    acc = 0\n    i = 0\n    for i in range(n):\n        acc = acc + subclo(i)\n    return acc\n", subclo)
+    # an if whose ELSE branch returns while the then branch falls through, with the statement after it (top level, in a subroutine, in a loop)
+    T["after-if-whose-else-returns"] = main("    if c:\n        qq = 1\n    else:\n        return 3\n    {X}\n    return 7\n")
+    T["after-elif-chain-whose-last-else-returns"] = main("    if n > 1:\n        qq = 1\n    elif c:\n        qq = 2\n    else:\n        return 3\n    {X}\n    return 7\n")
+    subelse = "@move\ndef subelse(m: int, c: bool):\n" + PRO + "    if c:\n        qq = 1\n    else:\n        return 3\n    {X}\n    return m\n\n"
+    T["subroutine-after-if-whose-else-returns"] = main("    r = subelse(n, c)\n", subelse)
+    T["loop-body-after-if-whose-else-returns"] = main("    i = 0\n    for i in range(n):\n        if c:\n            qq = 1\n        else:\n            return 3\n        {X}\n    return 7\n")
     rec = "@move\ndef rec(m: int):\n" + PRO + "    if m > 0:\n        return rec(m - 1)\n    {X}\n    return 0\n\n"
     T["recursive-subroutine"] = main("    r = rec(n)\n", rec)
     T["closure-called"] = main("    def inner(k: int):\n        {X}\n        return k\n    r = inner(n)\n")
@@ -296,6 +302,34 @@ def reflect_depth(ctx, S):
                    a >= i, f"analysis {a} < interpreters {i}")
 
 
+def shared_subroutine_history(ctx, S):
+    """a subroutine SHARED by two kernels (it looks the spec up and calls a closure of its own): the query about the kernel that was compiled
+    without a spec is answered the same before and after the OTHER kernel is compiled with arch_spec= (the injection copies what it reaches
+    and must leave the originals as they were)"""
+    for sname, stext in (("quiet", QUIET), ("cz", DEV["cz"])):
+        subclo = ("@move\ndef subclo(m: int):\n" + PRO + "    w = spec.get_int_constant(constant_id=\"rows\")\n    def inner(k: int):\n        " + stext + "\n        return k + m + w\n"
+                  "    if m > 5:\n        return inner(3)\n    return inner(2)\n\n")
+        src = TW + subclo + "@move\ndef main(n: int, c: bool):\n    r = subclo(n)\n    return r\n"
+        rep = {"shared_subroutine_history": True, "statement": sname}
+        try:
+            ns = kernels.define(src)
+            before = query(ns["main"])
+            other = kernels.define("@move(arch_spec=S)\ndef other(n: int, c: bool):\n    return subclo(n) + 1\n", S=S, subclo=ns["subclo"])["other"]
+            after, about_other = query(ns["main"]), query(other)
+        except Exception as e:
+            ctx.obligation("the shared-subroutine history can be defined", False, f"{type(e).__name__}: {e}"[:200])
+            continue
+        ctx.evaluations += 3
+        want = "False" if sname == "quiet" else "True"
+        ctx.hist("shared subroutine history", f"{sname}: before {before}, after the other compilation {after}, the other kernel {about_other}")
+        if before != want or after != before or about_other != want:
+            ctx.fail({"kind": "answer-depends-on-query-history", "position": "subroutine shared with a kernel compiled with arch_spec", "statement": sname}, rep,
+                     f"kernel over a shared subroutine ({sname} statement in its closure): answered {before} before and {after} after ANOTHER kernel reaching the same subroutine was "
+                     f"compiled with arch_spec= (that kernel: {about_other}); expected {want} throughout")
+        else:
+            ctx.nt(("shared-subroutine-history", sname))
+
+
 def translated_analysis(ctx):
     """how the analysis propagates its flag, read from source on every run (harness/gen/runtime_translate.py, fail-closed): the handlers of
     analysis/runtime.py and dialects/*/runtime.py become Gallina one-step functions proved equal to Model.Runtime's for every statement"""
@@ -319,6 +353,7 @@ def translated_analysis(ctx):
 def run(ctx):
     S = tweezer_prog.harness_spec()
     translated_analysis(ctx)
+    shared_subroutine_history(ctx, S)
     reflect_tables(ctx, S)
     reflect_depth(ctx, S)
     operand_forms(ctx, S)
@@ -435,6 +470,17 @@ def run(ctx):
 
 def replay(data):
     inp = data["input"]
+    if inp.get("shared_subroutine_history"):
+        class C:
+            def __init__(s): s.fails, s.evaluations = [], 0
+            def fail(s, sig, rep, what): s.fails.append(what)
+            def nt(s, *a): pass
+            def hist(s, *a): pass
+            def obligation(s, n, ok, log=""):
+                if not ok: s.fails.append(n)
+        c = C()
+        shared_subroutine_history(c, tweezer_prog.harness_spec())
+        return bool(c.fails), (c.fails or ["the answers do not depend on the other compilation"])[0][:200]
     if "src" not in inp:
         return True, "re-run bin/check C09"
     S = tweezer_prog.harness_spec()
